@@ -419,6 +419,70 @@ fn read_frame(t: &serde_json::Value, libs: &serde_json::Value, i: usize) -> Opti
     }
 }
 
+/// the text between the `{` at `open` and its matching `}` (strings in the output never contain braces: all names
+/// are generated by this file)
+fn brace_body(d: &str, open: usize) -> Option<&str> {
+    let mut depth = 0usize;
+    for (i, c) in d[open..].char_indices() {
+        match c {
+            '{' => depth += 1,
+            '}' => {
+                depth -= 1;
+                if depth == 0 {
+                    return Some(&d[open + 1..open + i]);
+                }
+            }
+            _ => {}
+        }
+    }
+    None
+}
+
+/// `tables k <ents> p0 <ents> ..` from the derived `Debug` output of `Profile`: every `LibMappings { .. }` in it is
+/// the kernel table (the one preceded by `kernel_libs: `) or the `libs` of one process, in process order; per entry
+/// the four integers of `Mapping { .. }` (the last one is the index inside the `LibraryHandle`)
+fn profile_tables(profile: &Profile, n_procs: usize, lib_value: &BTreeMap<usize, u64>) -> String {
+    let d = format!("{profile:?}");
+    let mut kernel: Option<String> = None;
+    let mut procs: Vec<String> = Vec::new();
+    let mut from = 0usize;
+    while let Some(pos) = d[from..].find("LibMappings {") {
+        let at = from + pos;
+        let open = at + "LibMappings ".len();
+        let Some(body) = brace_body(&d, open) else { return "tables err:debug-format".into() };
+        let mut ents = String::new();
+        for chunk in body.split("Mapping {").skip(1) {
+            let inner = chunk.split('}').next().unwrap_or("");
+            let nums: Vec<&str> = inner.split(|c: char| !c.is_ascii_digit()).filter(|s| !s.is_empty()).collect();
+            if nums.len() != 4 {
+                return "tables err:debug-format".into();
+            }
+            let Some(v) = nums[3].parse::<usize>().ok().and_then(|h| lib_value.get(&h)) else {
+                return "tables err:unknown-lib".into();
+            };
+            ents.push_str(&format!(" {}:{}:{}:{v}", nums[0], nums[1], nums[2]));
+        }
+        if d[..at].ends_with("kernel_libs: ") {
+            if kernel.is_some() {
+                return "tables err:debug-format".into();
+            }
+            kernel = Some(ents);
+        } else {
+            procs.push(ents);
+        }
+        from = open + body.len();
+    }
+    let Some(kernel) = kernel else { return "tables err:debug-format".into() };
+    if procs.len() != n_procs {
+        return "tables err:debug-format".into();
+    }
+    let mut line = format!("tables k{kernel}");
+    for (i, e) in procs.iter().enumerate() {
+        line.push_str(&format!(" p{i}{e}"));
+    }
+    line
+}
+
 fn exec_threads(ops: &[String], stats: &mut Stats) -> Vec<String> {
     let mut p = Prof {
         profile: Profile::new("c11t", ReferenceTimestamp::from_millis_since_unix_epoch(0.0), SamplingInterval::from_millis(1)),
@@ -576,6 +640,19 @@ fn exec_threads(ops: &[String], stats: &mut Stats) -> Vec<String> {
                 let r = catch_unwind(AssertUnwindSafe(|| p.profile.clear_process_lib_mappings(ph)));
                 stats.bump("th_pclear");
                 lines.push(okline(r, stats, "pclear"));
+            }
+            Some("pdump") => {
+                if w.len() != 1 {
+                    return vec!["bad-op".into()];
+                }
+                let mut lib_value: BTreeMap<usize, u64> = BTreeMap::new();
+                for (v, h) in &p.libs {
+                    if let Some(i) = handle_index(h) {
+                        lib_value.insert(i, *v);
+                    }
+                }
+                stats.bump("th_pdump");
+                lines.push(Ok(profile_tables(&p.profile, proc_attempts, &lib_value)));
             }
             Some(kw @ ("frame" | "fsym")) => {
                 let with_sym = kw == "fsym";
@@ -902,13 +979,13 @@ fn boundary_cases() -> Vec<Case> {
         "fsym 0 0 ip 1100", "fsym 1 1 ip 1100", "fsym 2 2 ip 1100", "fsym 3 3 ip 1100",
         "frame 0 ip 1550", "fsym 3 3 ra 1601", "frame 3 ra 1201", "fsym 1 1 ra 1201", "frame 0 ra 1000", "fsym 0 0 ara 1000",
         "premove 0 1000", "frame 1 ip 1100", "fsym 2 2 ip 1100", "frame 0 ip 1100", "pclear 2", "fsym 0 0 ip 1100", "frame 0 ip 1550",
-        "kremove 1500", "fsym 0 0 ip 1550", "frame 3 ip 1550",
+        "kremove 1500", "fsym 0 0 ip 1550", "frame 3 ip 1550", "pdump",
     ]);
     // processes and threads created after mappings exist: a new process starts empty; its index equals a thread index
     th("late-creation", &[
         "proc", "padd 0 100 200 0 1", "thread 0", "frame 0 ip 150", "proc", "thread 1", "thread 0", "frame 1 ip 150", "fsym 2 2 ip 150",
         "padd 1 100 300 50 2", "frame 1 ip 150", "frame 1 ip 250", "frame 0 ip 250", "fsym 2 2 ip 250", "proc", "thread 2", "fsym 3 3 ip 150",
-        "kadd 140 160 0 3", "frame 3 ip 150", "frame 3 ip 139", "frame 1 ip 139", "frame 0 ra 140", "fsym 1 1 ra 161",
+        "kadd 140 160 0 3", "frame 3 ip 150", "frame 3 ip 139", "frame 1 ip 139", "frame 0 ra 140", "fsym 1 1 ra 161", "pdump",
     ]);
     // the RelativeAddressFrom* variants never consult a table (also for a library that is mapped elsewhere)
     th("relative-variants", &[
@@ -925,7 +1002,7 @@ fn boundary_cases() -> Vec<Case> {
     th("foreign-handles", &[
         "proc", "thread 0", "padd 0 100 200 0 1", "frame 0 ip 150", "padd 1 100 200 0 2", "premove 3 100", "pclear 2", "frame 0 ip 150",
         "frame 1 ip 150", "fsym 0 1 ip 150", "thread 0", "fsym 0 1 ip 150", "fsym 1 0 ip 150", "fsym 1 1 ip 150",
-        "thread 1", "frame 2 ip 150", "proc", "frame 2 ip 150", "padd 1 100 200 5 3", "frame 2 ip 150", "thread 1", "frame 3 ip 150",
+        "thread 1", "frame 2 ip 150", "proc", "frame 2 ip 150", "padd 1 100 200 5 3", "frame 2 ip 150", "thread 1", "frame 3 ip 150", "pdump",
     ]);
     v
 }
@@ -1273,6 +1350,9 @@ fn gen_threads(rng: &mut Rng, fam: Family) -> Vec<String> {
             }
             _ => ops.push(l.clone()),
         }
+        if rng.chance(1, 30) {
+            ops.push("pdump".to_string());
+        }
         if fam == Family::Excluded && rng.chance(1, 12) {
             // handles of another profile
             let bad_p = n_procs_now + rng.below(3) as usize;
@@ -1305,6 +1385,7 @@ fn gen_threads(rng: &mut Rng, fam: Family) -> Vec<String> {
             }
         }
     }
+    ops.push("pdump".to_string());
     ops
 }
 
@@ -1342,6 +1423,7 @@ fn enum_threads(len: usize, out: &mut Vec<Case>) {
                 ops.push(format!("frame 0 ip {a}"));
                 ops.push(format!("fsym 1 1 ip {a}"));
             }
+            ops.push("pdump".to_string());
         }
         for &a in &addrs {
             ops.push(format!("fsym 0 0 ra {a}"));
@@ -1352,6 +1434,7 @@ fn enum_threads(len: usize, out: &mut Vec<Case>) {
         ops.push("thread 2".to_string());
         ops.push("frame 3 ip 15".to_string());
         ops.push("fsym 3 3 ra 20".to_string());
+        ops.push("pdump".to_string());
         let name = format!("xt{len}-{}", idx.iter().map(|c| format!("{c:x}.")).collect::<String>());
         out.push(Case { name, ops });
         let mut k = 0;
